@@ -1,4 +1,4 @@
-"""F-C19 (open): `doit -r json -n 2 -P thread` with two overlapping python-actions must still print one JSON document
+"""F-C19 (fixed by /repo 82e2ada): `doit -r json -n 2 -P thread` with two overlapping python-actions must still print one JSON document
 and exit 0/1/2.  (JsonReporter.complete_run reads `sys.stdout.getvalue()`; after the overlapping stdout swaps of the two
 actions -- F-C17a -- sys.stdout is a task Writer, so complete_run raises AttributeError: exit 3, no document.)"""
 from _util import *
